@@ -179,7 +179,7 @@ theorem set_eq_err {N : Cap} {m : Rules} {r : Reg} {v : Rule} :
     · simp [hroom]
     · right
       simp only [hroom]
-      exact ⟨rfl, (get_eq_none_iff m r).mpr hnot, by simpa using hroom⟩
+      exact ⟨rfl, (get_eq_none_iff m r).mpr hnot, by simp⟩
 
 
 /-! ### `clear` (`swap_remove`) -/
